@@ -103,7 +103,7 @@ def run(tier):
     spec = C10Spec(tier)
     report = Report(PROP, "model_checking", tier)
     if tier == "quick":
-        explore.run(spec, report, tier, 8, 400000, 150)
+        explore.run(spec, report, tier, 8, 400000, 600)
     else:
         explore.run(spec, report, tier, 12, 3000000, 1800)
     e1check.confirm_all(spec, report)
